@@ -154,6 +154,9 @@ class Session:
                 self.net.remove_reaction(st["i"])
             elif kind == "set_allowed":
                 self.net.allowed_species = list(st["names"])
+            elif kind == "write":
+                # the reactions written to a file (as `export` does for reactions.naunet): read-only in intent
+                self.net.write(os.path.join(self.dir, "written_reactions.txt"), st.get("fmt", "naunet"))
             elif kind == "set_required":
                 self.net.required_species = list(st["names"])
             elif kind == "set_rate_modifier":
